@@ -130,7 +130,13 @@ def literal_forms_worker(seed):
     cases = [("float64", "1e-3", Fr(1, 1000)), ("float64", "0.001", Fr(1, 1000)), ("float32", "25e-1", Fr(5, 2)), ("float16", "1.5E-2", Fr(3, 200)),
              ("uint8", "300000e-5", Fr(3)), ("int16", "-12_000e-3", Fr(-12)), ("float64", "1e-400", Fr(1, 10 ** 400)), ("float64", ".1", Fr(1, 10)),
              ("float64", "7E+2", Fr(700)), ("uint16", "0x_ff_ff", Fr(65535)), ("uint8", "0b1111_1111", Fr(255)), ("int8", "-0o200", Fr(-128)),
-             ("float32", "1 / 3", Fr(1, 3)), ("float64", "0.1 + 0.2", Fr(3, 10)), ("uint64", "18_446_744_073_709_551_615", Fr(2 ** 64 - 1))]
+             ("float32", "1 / 3", Fr(1, 3)), ("float64", "0.1 + 0.2", Fr(3, 10)), ("uint64", "18_446_744_073_709_551_615", Fr(2 ** 64 - 1)),
+             # compliant values whose exact rational form is thousands of digits long (rendering them is nobody's business)
+             ("float32", "1 / 10 ** 5000", Fr(1, 10 ** 5000)), ("float64", "1 - 1 / 10 ** 5000", 1 - Fr(1, 10 ** 5000)),
+             ("float16", "65504 - 1 / 10 ** 5000", 65504 - Fr(1, 10 ** 5000)), ("float64", "-(1 / 3 ** 9000)", -Fr(1, 3 ** 9000)),
+             # results of fractional powers: the exact value of the binary64 number the power yields, not a rounded decimal
+             ("float64", "0.1 ** 0.5", Fr(0.1 ** 0.5)), ("float64", "2 ** 0.5", Fr(2 ** 0.5)), ("float32", "10 ** -0.5", Fr(10 ** -0.5)),
+             ("float64", "(2 ** 200) ** 0.5", Fr(2 ** 100)), ("float32", "3 ** 0.5 * 0 + 340282346638528859811704183484516925440", Fr(340282346638528859811704183484516925440))]
     diff = []
     for ty, lit, want in cases:
         with dsdlio.Tree({"ns/A.1.0.dsdl": "%s X = %s\n@sealed\n" % (ty, lit)}, "c12l") as tr:
